@@ -448,6 +448,8 @@ def replay(r):
     import pyhf.infer.intervals.upper_limits as ul
     if "::linear_grid_scan#" in name or "::toms748_scan#" in name:
         return _replay_scans(name, ul, np)
+    if "upper_limit#fwd." in name and "fwd.level" not in name:
+        return _replay_upper_limit_forwarding(ul, np)
     if "upper_limit#fwd.level" not in name:
         return None
     seen = {}
@@ -554,7 +556,7 @@ def _replay_scans_run(name, ul, np):
                 ul.toms748 = saved_t
             if n_first != 6 or len(rec) not in (6, 12):
                 bad["root-searches"] = len(rec)
-            for k, (f, a, b, args, kk, xtol, rtol) in enumerate(rec):
+            for k, (f, a, b, args, kk, xtol, rtol) in enumerate(rec[:6]):
                 if tuple(args) != (0.3, k) or xtol != 1e-3 or rtol != 1e-2 or kk != 2:
                     bad[f"args{k}"] = repr((args, kk, xtol, rtol))
                 for m in (0.7, 3.0):
@@ -573,3 +575,41 @@ def _replay_scans_run(name, ul, np):
     finally:
         ul.hypotest = saved_h
     return {"reproduced": bool(bad), "disagreements": bad, "how": "real function, hypotest = 6 known decreasing curves, numerical library call spied"}
+
+
+def _replay_upper_limit_forwarding(ul, np):
+    """the real upper_limit with both scans replaced by recording stubs: every argument the caller passed must arrive"""
+    seen = {}
+    saved = (ul.toms748_scan, ul.linear_grid_scan)
+
+    def spy_t(data, model, lo, hi, level=0.05, atol=2e-12, rtol=1e-4, from_upper_limit_fn=False, **kw):
+        seen["toms748"] = dict(data=data, model=model, level=level, kw=kw, bounds=(lo, hi))
+        return 1.0, [1.0] * 5, ([], [])
+
+    def spy_g(data, model, scan, level=0.05, return_results=False, **kw):
+        seen["grid"] = dict(data=data, model=model, level=level, kw=kw, scan=scan, rr=return_results)
+        return (1.0, [1.0] * 5, (scan, [])) if return_results else (1.0, [1.0] * 5)
+
+    class Cfg:
+        poi_name = "mu"
+        def suggested_bounds(self): return [(0.5, 7.0), (0.0, 1.0)]
+        def par_slice(self, n): return slice(0, 1)
+
+    class M:
+        config = Cfg()
+    ul.toms748_scan, ul.linear_grid_scan = spy_t, spy_g
+    bad = {}
+    try:
+        kw = dict(test_stat="q", fixed_params=[False, True])
+        out_t = ul.upper_limit("D", M(), level=0.2, return_results=True, **kw)
+        out_g = ul.upper_limit("D", M(), scan=[1.0, 2.0], level=0.2, return_results=True, **kw)
+    finally:
+        ul.toms748_scan, ul.linear_grid_scan = saved
+    t, g = seen.get("toms748", {}), seen.get("grid", {})
+    if t.get("kw") != kw or t.get("level") != 0.2 or t.get("data") != "D" or t.get("bounds") != (0.5, 7.0):
+        bad["automatic-scan"] = repr(t)
+    if g.get("kw") != kw or g.get("level") != 0.2 or g.get("scan") != [1.0, 2.0] or g.get("rr") is not True:
+        bad["grid-scan"] = repr(g)
+    if len(out_t) != 3 or len(out_g) != 3:
+        bad["return_results"] = (len(out_t), len(out_g))
+    return {"reproduced": bool(bad), "passed": dict(level=0.2, return_results=True, **kw), "received": bad}
